@@ -245,7 +245,7 @@ func fitRTCP(r *core.Rand, wr *Write, want int) {
 		w4 += 4
 	}
 	min := map[string]int{"raw": 8, "sr": 28, "rr": 8, "sdes": 12, "app": 12, "compound": 28 + 12 + 12}[kind]
-	if w4 < min || (kind == "sdes" && w4 > 4+31*264) {
+	if w4 < min || (kind == "sdes" && w4 > 4+31*264) || w4 > 60000 {
 		kind = "raw"
 	}
 	wr.Kind = kind
